@@ -93,8 +93,9 @@ func (c02) Run(t *tape.Tape, tier Tier) *Result {
 	sim.Send(0, 1, []int{0}, route, m1)
 	// transferred references: generated ones and a node of e0
 	type held struct {
-		err error
-		hop int
+		err  error
+		hop  int
+		path string
 	}
 	transferred := map[int]int{} // flow -> ref index
 	refTrees := map[int][]obs.Node{}
@@ -115,6 +116,9 @@ func (c02) Run(t *tape.Tape, tier Tier) *Result {
 		transferred[flow] = i
 		refTrees[i] = obs.Tree(r.Err, false)
 		rr := append(drawRoute(t, nproc, maxHops), kEnd.ID, 0)
+		if t.Bool(1, 2) {
+			rr = append([]int(nil), route...) // same path as e: the pair meets at every process
+		}
 		res.Desc.Routes = append(res.Desc.Routes, fmt.Sprintf("ref[%s]:%s", r.Name, routeString(append([]int{0}, rr...))))
 		sim.At(0)
 		sim.Send(flow, 1, []int{0}, rr, data)
@@ -169,7 +173,7 @@ func (c02) Run(t *tape.Tape, tier Tier) *Result {
 			res.add(Violation{Prop: "C02", Oracle: "transfer", Culprit: typeOfLayer(want[0]), Expected: "no panic", Observed: d.Panic + d.RePanic, Where: where})
 			return
 		}
-		holds[d.Proc.ID][d.Msg.Flow] = held{d.Err, d.Msg.Hop}
+		holds[d.Proc.ID][d.Msg.Flow] = held{d.Err, d.Msg.Hop, routeString(d.Msg.Path)}
 		full := d.Proc.Prof.IsFull()
 		if d.Msg.Flow == 0 {
 			// (a) e transferred, r local
@@ -216,7 +220,43 @@ func (c02) Run(t *tape.Tape, tier Tier) *Result {
 				return
 			}
 		}
+		// (b) both transferred and meeting at this process. At a process that
+		// lacks decoders both copies are opaque stand-ins: a match is expected
+		// to persist only if mark equality explains it, and a non-match must
+		// stay a non-match.
 		if !full {
+			if he, ok := holds[d.Proc.ID][0]; ok {
+				for flow, idx := range transferred {
+					hr, ok := holds[d.Proc.ID][flow]
+					if !ok || !(d.Msg.Flow == 0 || d.Msg.Flow == flow) {
+						continue
+					}
+					// only copies that travelled the same path: recorded text
+					// distortions at unknowing processes (C04 findings) then
+					// apply to both alike
+					if he.path != hr.path {
+						continue
+					}
+					if row0[idx] == 'T' {
+						explicit := b.MarkRefs
+						if !d.Proc.Prof.Knows(withMarkKey) {
+							explicit = nil
+						}
+						if !explainAtUnknowing(e0, refErrs[idx], explicit) {
+							continue
+						}
+					}
+					got := obs.IsOne(he.err, hr.err)
+					if got == row0[idx] {
+						continue
+					}
+					txt := func(x error) string { return obs.S(func() string { return x.Error() }) }
+					res.add(Violation{Prop: "C02", Oracle: "both-transferred-at-unknowing", Culprit: refCulprit(refs[idx]) + ":" + string(row0[idx]) + "->" + string(got),
+						Expected: fmt.Sprintf("%c; e=%q r=%q", row0[idx], txt(e0), txt(refErrs[idx])),
+						Observed: fmt.Sprintf("%c; e=%q r=%q", got, txt(he.err), txt(hr.err)),
+						Where: fmt.Sprintf("process %d (%s) holds e and ref[%s], both via %s", d.Proc.ID, d.Proc.Prof.Name, refs[idx].Name, he.path)})
+				}
+			}
 			return
 		}
 		// (b) both transferred and meeting at this knowing process
